@@ -8,19 +8,15 @@ Inductive fn := FChunk | FChunkFunc | FWindowed | FWindowedFunc | FPairs | FPair
 Record case := Case {
   c_fn : fn;
   c_input : list Z;
-  c_size : Z;                          (* >= 1 (else the check fails); Pairs: 1 *)
+  c_size : Z;                          (* >= 1 (else the check fails); ignored for Pairs/PairsFunc *)
   c_obs : result (list (list Z))       (* pairs are written as two-element lists *)
 }.
 
 Definition unpair (r : result (list (Z * Z))) : result (list (list Z)) :=
   do ps <- r; Ok (map (fun p => [fst p; snd p]) ps).
 
-(* A size above n is replaced by n + 1: the model gives the same result for every size > n
-   ([clamp_size_sound] in PartitionProofs.v, C13_clamp_size), and a size such as 2^63-1 must not be
-   turned into a unary [nat]. *)
-Definition clamp_size {A} (l : list A) (z : Z) : nat :=
-  Z.to_nat (Z.min z (Z.of_nat (length l) + 1)).
-
+(* The size is clamped to n + 1 ([clamp_size], Partition.v): the model gives the same result for every
+   size > n (C13_clamp_size), and a size such as 2^63-1 must not be turned into a unary [nat]. *)
 (* Only meaningful for c_size >= 1; [check_case] rejects other cases before looking at this result. *)
 Definition run_case (c : case) : result (list (list Z)) :=
   let size := clamp_size (c_input c) (c_size c) in
@@ -38,5 +34,6 @@ Definition run_case (c : case) : result (list (list Z)) :=
    the check fails closed (for c_size < 0, [Z.to_nat] would also turn the size into 0). The size-0
    branches of the model are a transcription that no theorem and no comparison uses. *)
 Definition check_case (c : case) : bool :=
-  if (c_size c <? 1)%Z then false
+  let sized := match c_fn c with FPairs | FPairsFunc => false | _ => true end in
+  if sized && (c_size c <? 1)%Z then false   (* Pairs/PairsFunc take no size: c_size is irrelevant for them *)
   else result_eqb (list_eqb (list_eqb Z.eqb)) (run_case c) (c_obs c).
